@@ -191,6 +191,7 @@ type pkgRef struct {
 
 // Ctx is the verification context of one function under contract.
 type Ctx struct {
+	errIsUsed    bool
 	replayInfo   *ReplayInfo
 	tolerant     bool
 	clauseBroken string
